@@ -7,12 +7,18 @@ use s2n_quic_core::{
     varint::VarInt,
 };
 
-pub const NAMES: &[&str] = &["reassembler"];
+pub const NAMES: &[&str] = &["reassembler", "reassembler-slots"];
 
 pub fn make(name: &str) -> Option<Box<dyn Component>> {
     match name {
         "reassembler" => Some(Box::new(ReasmC {
             buf: Reassembler::new(),
+            slots: false,
+        })),
+        // the same object, observed including chunk boundaries and report()
+        "reassembler-slots" => Some(Box::new(ReasmC {
+            buf: Reassembler::new(),
+            slots: true,
         })),
         _ => None,
     }
@@ -20,6 +26,8 @@ pub fn make(name: &str) -> Option<Box<dyn Component>> {
 
 pub struct ReasmC {
     buf: Reassembler,
+    /// `reassembler-slots`: also print chunk lengths and `report()`
+    slots: bool,
 }
 
 /// test-input generator (NOT part of the code under test): byte `i` of the stream keyed `key`
@@ -72,11 +80,32 @@ fn flag(t: &str) -> Option<bool> {
 
 impl ReasmC {
     fn answer(&self, status: &str, popped: &[u8]) -> String {
+        self.answer_chunks(status, popped, &[])
+    }
+
+    fn answer_chunks(&self, status: &str, popped: &[u8], chunks: &[u64]) -> String {
         let b = &self.buf;
         let fin = match b.final_size() {
             Some(f) => f.to_string(),
             None => "none".to_string(),
         };
+        if self.slots {
+            let (bytes, nchunks) = b.report();
+            return format!(
+                "{} {} {} {} {} {} {} {} {} {} {}",
+                status,
+                show_bytes(popped),
+                list(chunks),
+                bytes,
+                nchunks,
+                b.consumed_len(),
+                b.total_received_len(),
+                fin,
+                b.is_writing_complete() as u8,
+                b.is_reading_complete() as u8,
+                b.is_empty() as u8
+            );
+        }
         format!(
             "{} {} {} {} {} {} {} {} {}",
             status,
@@ -143,12 +172,14 @@ impl Component for ReasmC {
             ["read", w] => {
                 let Some(w) = watermark(w) else { return "bad-op".into() };
                 let mut got: Vec<u8> = Vec::new();
+                let mut chunks: Vec<u64> = Vec::new();
                 loop {
                     let c = match w {
                         None => self.pop_once(None),
                         Some(w) => self.pop_once(Some(w - got.len())),
                     };
                     let Some(c) = c else { break };
+                    chunks.push(c.len() as u64);
                     got.extend_from_slice(&c);
                     if let Some(w) = w {
                         if got.len() >= w {
@@ -156,9 +187,15 @@ impl Component for ReasmC {
                         }
                     }
                 }
-                self.answer("ok", &got)
+                self.answer_chunks("ok", &got, &chunks)
             }
-            ["popn", w, k] => {
+            ["pop", w] if self.slots => {
+                let Some(w) = watermark(w) else { return "bad-op".into() };
+                let c = self.pop_once(w).unwrap_or_default();
+                let chunks: Vec<u64> = if c.is_empty() { vec![] } else { vec![c.len() as u64] };
+                self.answer_chunks("ok", &c, &chunks)
+            }
+            ["popn", w, k] if !self.slots => {
                 let (Some(w), Some(_k)) = (watermark(w), num::<u64>(k)) else {
                     return "bad-op".into();
                 };
